@@ -139,7 +139,7 @@ static uint64_t atomic_load(uint64_t *p)
 static bool atomic_cas_weak(uint64_t *p, uint64_t *expected, uint64_t desired)
 {
   interfere(p);
-  if (*p == *expected && nondet_bool())
+  if (*p == *expected && (g_seq || nondet_bool()))   /* sequential units: no spurious failure */
   {
     vx_step(p, desired);
     return true;
